@@ -609,6 +609,24 @@ def run(chk):
     r8.anchor(not missing8, "callback-taking prelude functions of the reference table (missing: %s)" % missing8)
     r8.require(20, "callback parameters")
 
+    # ------------------------------------------------------------------ R17.11 = C08 R8.3: the prelude's private copies are copies
+    if not getattr(chk, "nested", False):
+        from .. import core
+        from . import c08
+        r11 = chk.rule("R17.11", "the copying declarations the prelude relies on (`auto retval = initial`, `auto i = num`, `auto retval = r.front()`) really copy: container literals store "
+                                 "clone_if_necessary(..) of each element (which also clears the is-a-temporary mark), `var x = e` clones (C08 R8.3 re-decided)",
+                       "library functions leave their inputs unmodified: a local the prelude declares with `=` never aliases an element of the caller's container")
+        sub = core.Check("C08", tier=chk.tier)
+        sub.prog = chk.program()
+        sub.nested = True
+        c08.run(sub)
+        sr = [r for r in sub.rules if r.rid == "R8.3"]
+        r11.anchor(bool(sr), "C08 R8.3")
+        for v in [v for v in sub.violations if v["rule"] == "R8.3"]:
+            r11.ob("R8.3: %s" % v["instance"], False, v["where"], v["function"], v["detail"] + " - an element that stays marked as a temporary is adopted, not copied, by the prelude's `auto x = ..`")
+        r11.ob("C08 R8.3 decided (%d obligations)" % sr[0].obligations, True, "", "", "")
+        r11.require(1, "rule")
+
     # ------------------------------------------------------------------ R17.6 (C++ side)
     r6 = chk.rule("R17.6", "advancing a range view (Bidir_Range) only moves the view's own iterators",
                   "iterating over a container with the library algorithms leaves the container unmodified")
